@@ -384,6 +384,15 @@ impl TaskState<'_> {
 
 impl Drop for TaskState<'_> {
     fn drop(&mut self) {
+        // This task will never be polled again, so any wakeup from here on
+        // (a waker that outlives the task, or a destructor below waking this
+        // task) must be a noop. Notably a task cancelled while sleeping is
+        // still in the "sleeping" state here and a wakeup would otherwise
+        // write to the inter-task stream whose read is cancelled below.
+        self.shared
+            .sleep_state
+            .store(SLEEP_STATE_WOKEN, Ordering::Relaxed);
+
         // If there's an active read of the inter-task stream, go ahead and
         // cancel it, since we're about to drop the stream anyway.
         self.cancel_inter_task_stream_read();
